@@ -420,7 +420,17 @@ def run(sim, plan):
             if res != 0:
                 sim.violation("C20.R2", f"go_offline returned OFLACK {res!r}", sig="C20.R2|go_offline")
         elif op == "remote_command":
-            res = api(op, lambda: host.send_remote_command("START", []))
+            n0 = len(received_events)
+            link = eq.registered_collection_events.get(20)
+            done_event = link is not None and link.enabled      # START reports CEID 20 (CMD_START_DONE) when subscribed
+            try:
+                res = api(op, lambda: host.send_remote_command("START", []))
+            finally:
+                if done_event:
+                    # its completion event belongs to this operation: wait for it (the sender thread may be frozen), so
+                    # that it is not mistaken for the event of a later trigger
+                    sim.wait_until(lambda: len(received_events) > n0, api_timeout)
+                    sim.wait_until(lambda: not k.stalled_now(), 6)
             hcack = None if res is None else res.HCACK.get()
             if hcack != 4:
                 sim.violation("C20.R2", f"remote command START returned HCACK {hcack!r}, expected 4 (finish later)",
